@@ -240,6 +240,34 @@ pub fn recursive_envs(prefix: &str) -> Vec<(Env, Ty)> {
     out
 }
 
+/// Aliases: every primitive (and a few composites) behind a definition and behind a chain of two
+/// definitions, used at every constructor position (on its own, under opt / vec, as a record
+/// field, as a variant payload, under opt variant).
+pub fn alias_envs(prefix: &str) -> Vec<(Env, Ty)> {
+    let n = |s: &str| format!("{prefix}{s}");
+    let v = |s: &str| Ty::Var(n(s));
+    let mut targets: Vec<Ty> = Prim::ALL.iter().filter(|x| **x != P::Empty).map(|x| p(*x)).collect();
+    targets.push(Ty::opt(p(P::Nat)));
+    targets.push(Ty::vec(p(P::Nat8)));
+    targets.push(Ty::record(vec![]));
+    targets.push(Ty::variant(vec![(0, p(P::Null))]));
+    targets.push(Ty::opt(Ty::opt(p(P::Null))));
+    let mut out = vec![];
+    for tg in targets {
+        let env = Env(vec![(n("X"), tg.clone()), (n("Y"), v("Z")), (n("Z"), tg.clone())].into_iter().collect());
+        for a in ["X", "Y"] {
+            let x = v(a);
+            out.push((env.clone(), x.clone()));
+            out.push((env.clone(), Ty::opt(x.clone())));
+            out.push((env.clone(), Ty::vec(x.clone())));
+            out.push((env.clone(), Ty::record(vec![(0, x.clone()), (1, p(P::Nat))])));
+            out.push((env.clone(), Ty::variant(vec![(0, x.clone()), (1, p(P::Nat))])));
+            out.push((env.clone(), Ty::opt(Ty::variant(vec![(0, p(P::Text)), (1, x.clone())]))));
+        }
+    }
+    out
+}
+
 /// All single-definition mutants of an environment (Appendix B: retarget / alter one
 /// definition), keeping only closed environments.
 pub fn env_mutants(e: &Env) -> Vec<Env> {
@@ -290,4 +318,174 @@ pub fn byte_mutants(msg: &[u8], insert_alphabet: &[u8]) -> Vec<Vec<u8>> {
         }
     }
     out
+}
+
+// ---------------------------------------------------------------------------------------
+// record widening: the wire message of a *newer* sender, whose records carry one more field
+
+/// where the surplus field goes relative to the existing field ids of each record
+#[derive(Clone, Copy, Debug, PartialEq)]
+pub enum WidenPos {
+    /// id below every existing id (skipped before anything of the record is read)
+    BeforeFirst,
+    /// id just above the smallest existing id (skipped between two wanted fields)
+    AfterFirst,
+    /// id above every existing id (skipped after everything was read)
+    Last,
+}
+
+pub const WIDEN_POSITIONS: [WidenPos; 3] = [WidenPos::BeforeFirst, WidenPos::AfterFirst, WidenPos::Last];
+
+fn widen_id(ids: &[u32], pos: WidenPos) -> Option<u32> {
+    let min = ids.iter().min().copied();
+    let max = ids.iter().max().copied();
+    let id = match pos {
+        WidenPos::BeforeFirst => min?.checked_sub(1)?,
+        WidenPos::AfterFirst => min?.checked_add(1)?,
+        WidenPos::Last => match max {
+            None => 0,
+            Some(m) => m.checked_add(1)?,
+        },
+    };
+    if ids.contains(&id) {
+        None
+    } else {
+        Some(id)
+    }
+}
+
+/// every record type (not inside function/service types) gets the surplus field
+pub fn widen_ty(t: &Ty, pos: WidenPos, extra: &Ty) -> Ty {
+    match t {
+        Ty::Opt(x) => Ty::opt(widen_ty(x, pos, extra)),
+        Ty::Vec(x) => Ty::vec(widen_ty(x, pos, extra)),
+        Ty::Record(fs) => {
+            let ids: Vec<u32> = fs.iter().map(|f| f.0).collect();
+            let mut out: Vec<(u32, Ty)> = fs.iter().map(|(i, x)| (*i, widen_ty(x, pos, extra))).collect();
+            if let Some(id) = widen_id(&ids, pos) {
+                out.push((id, extra.clone()));
+            }
+            Ty::record(out)
+        }
+        Ty::Variant(fs) => Ty::variant(fs.iter().map(|(i, x)| (*i, widen_ty(x, pos, extra))).collect()),
+        o => o.clone(),
+    }
+}
+
+pub fn widen_env(e: &Env, pos: WidenPos, extra: &Ty) -> Env {
+    let mut out = Env::new();
+    for (k, t) in &e.0 {
+        out.0.insert(k.clone(), widen_ty(t, pos, extra));
+    }
+    out
+}
+
+/// the value of the widened type: every record value gets the surplus field's value
+pub fn widen_val(v: &refmodel::val::Val, pos: WidenPos, extra: &refmodel::val::Val) -> refmodel::val::Val {
+    use refmodel::val::Val;
+    match v {
+        Val::Opt(Some(x)) => Val::some(widen_val(x, pos, extra)),
+        Val::Vec(xs) => Val::Vec(xs.iter().map(|x| widen_val(x, pos, extra)).collect()),
+        Val::Record(fs) => {
+            let ids: Vec<u32> = fs.iter().map(|f| f.0).collect();
+            let mut out: Vec<(u32, Val)> = fs.iter().map(|(i, x)| (*i, widen_val(x, pos, extra))).collect();
+            if let Some(id) = widen_id(&ids, pos) {
+                out.push((id, extra.clone()));
+            }
+            Val::record(out)
+        }
+        Val::Variant(i, x) => Val::Variant(*i, Box::new(widen_val(x, pos, extra))),
+        o => o.clone(),
+    }
+}
+
+/// (name, type, value) of the surplus fields used for widening
+pub fn widen_extras() -> Vec<(&'static str, Ty, refmodel::val::Val)> {
+    use refmodel::val::Val;
+    vec![
+        ("nat32", p(P::Nat32), Val::NatN(32, 0x01020304)),
+        ("text", p(P::Text), Val::Text("surplus text value".into())),
+        ("opt record { nat; nat16 }", Ty::opt(Ty::record(vec![(0, p(P::Nat)), (1, p(P::Nat16))])), Val::some(Val::record(vec![(0, Val::nat(300)), (1, Val::NatN(16, 0x8001))]))),
+        ("vec text", Ty::vec(p(P::Text)), Val::Vec(vec![Val::Text("a".into()), Val::Text("".into()), Val::Text("surplus".into())])),
+        ("float64", p(P::Float64), Val::F64(0x3ff8000000000000)),
+        ("int", p(P::Int), Val::int(-70000)),
+    ]
+}
+
+/// One larger inhabitant of `t` (texts of 60 bytes, vectors of `width` pairwise distinct elements),
+/// so that the payload dominates the fixed costs. None if the type has no finite inhabitant within
+/// the unfolding budget.
+pub fn big_val(env: &Env, t: &Ty, ctr: &mut u64, width: usize, fuel: usize) -> Option<refmodel::val::Val> {
+    use refmodel::val::Val;
+    *ctr += 1;
+    let c = *ctr;
+    Some(match t {
+        Ty::Prim(pr) => match pr {
+            P::Null => Val::Null,
+            P::Reserved => Val::Reserved,
+            P::Empty => return None,
+            P::Bool => Val::Bool(c % 2 == 1),
+            P::Nat => Val::nat(1000 + c),
+            P::Int => Val::int(-1000 - c as i64),
+            P::Nat8 => Val::NatN(8, c % 200),
+            P::Nat16 => Val::NatN(16, 300 + c),
+            P::Nat32 => Val::NatN(32, 70000 + c),
+            P::Nat64 => Val::NatN(64, (1 << 40) + c),
+            P::Int8 => Val::IntN(8, (c % 100) as i64 - 50),
+            P::Int16 => Val::IntN(16, -300 - c as i64),
+            P::Int32 => Val::IntN(32, -70000 - c as i64),
+            P::Int64 => Val::IntN(64, -(1 << 40) - c as i64),
+            P::Float32 => Val::F32((c as f32 + 0.5).to_bits()),
+            P::Float64 => Val::F64((c as f64 + 0.25).to_bits()),
+            P::Text => Val::Text(format!("{c:060}")),
+            P::Principal => Val::Principal(vec![(c % 251) as u8, 2, 3, 4, 5, 6, 7, 8, 9, 10]),
+        },
+        Ty::Var(_) => {
+            if fuel == 0 {
+                return None;
+            }
+            let u = env.unf(t).ok()?.clone();
+            // below a named (possibly recursive) definition vectors stay short
+            return big_val(env, &u, ctr, width.min(2), fuel - 1);
+        }
+        Ty::Opt(x) => match if fuel > 1 { big_val(env, x, ctr, width, fuel) } else { None } {
+            Some(v) => Val::some(v),
+            None => Val::none(),
+        },
+        Ty::Vec(x) => {
+            let mut out = vec![];
+            if fuel > 1 {
+                for _ in 0..width {
+                    match big_val(env, x, ctr, width, fuel) {
+                        Some(v) => out.push(v),
+                        None => break,
+                    }
+                }
+            }
+            Val::Vec(out)
+        }
+        Ty::Record(fs) => {
+            let mut out = vec![];
+            for (i, x) in fs {
+                out.push((*i, big_val(env, x, ctr, width, fuel)?));
+            }
+            Val::Record(out)
+        }
+        Ty::Variant(fs) => {
+            if fs.is_empty() {
+                return None;
+            }
+            let n = fs.len();
+            for k in 0..n {
+                let (i, x) = &fs[(c as usize + k) % n];
+                if let Some(v) = big_val(env, x, ctr, width, fuel) {
+                    return Some(Val::Variant(*i, Box::new(v)));
+                }
+            }
+            return None;
+        }
+        Ty::Func(_) => Val::Func(vec![1, 2, 3, 4], format!("method{c}")),
+        Ty::Service(_) => Val::Service(vec![4, 3, 2, 1]),
+        Ty::Class(..) | Ty::Future(..) => return None,
+    })
 }
